@@ -328,7 +328,17 @@ def _run_given(prop, sub, stratum, tier, seed, stats, open_known, frame, ftag):
     from hypothesis import HealthCheck, Phase, Verbosity, given, settings
 
     n = sub.count(tier, stratum)
-    if frame is None:
+    if stratum.get("N") == "any":
+        # "any N" stratum: the grid size is drawn (wide range + values known to be delicate) and the module's own
+        # strategy is built for it
+        from pbt import gens as _gens
+
+        def _for_n(n_):
+            s_ = dict(stratum, N=n_)
+            return sub.strategy(s_, tier) if frame is None else sub.strategy(s_, tier, frame)
+
+        strat = _gens.st_any_n(stratum["D"], tier, stratum.get("n_min", 3), stratum.get("n_max")).flatmap(_for_n)
+    elif frame is None:
         strat = sub.strategy(stratum, tier)
     else:
         strat = sub.strategy(stratum, tier, frame)
